@@ -1,4 +1,7 @@
 // ---- gen_lang.rs: what the generators write for an outcome (C09)
+/// Escaper::escaped_expectation / has_unprintable as functions of the content (the per-mode functions are those of unit escaping, C11)
+pub open spec fn exp_text(e: Escaper, c: Seq<u8>) -> Seq<char> { match e { Escaper::Ascii => exp_text_ascii(c), Escaper::Unicode => exp_text_unicode(c) } }
+pub open spec fn esc_unp(e: Escaper, c: Seq<u8>) -> bool { match e { Escaper::Ascii => exists_unprintable(c), Escaper::Unicode => unp_unicode(c) } }
 /// the exit code line `[n]`: written exactly for a non-zero exit code
 pub open spec fn exit_text(e: ExitStatus) -> Option<Seq<char>> {
     match e { ExitStatus::Code(code) => if code != 0 { Some(seq!['['] + int_text(code as int) + seq![']', '\n']) } else { None }, _ => None }
@@ -87,15 +90,15 @@ pub open spec fn reads_back(text: Seq<char>, line: Seq<u8>) -> bool {
         || (p.1 == noeol_word() && line == encode_utf8(p.0))
         || (p.1 == escaped_word() && opt_eq(decode(p.0), Some(strip_nl(line)))))
 }
-/// what C11 proves about Escaper::escaped_expectation (clauses C11.ascii.lossless / C11.unicode.lossless and the branch structure of
-/// escaped_expectation_*), restated for the uninterpreted exp_text / esc_unp: printable content is written as itself, anything else as
-/// an escaped expression that decodes to it, followed by the marker. TRUSTED here, proved function by function in unit escaping.
-#[verifier::external_body]
-pub proof fn axiom_exp_text(e: Escaper, c: Seq<u8>)
+/// what the expectation text is (over the functions of unit escaping: lemma_exp_text_ascii / lemma_exp_text_unicode): printable
+/// content is written as itself, anything else as an escaped expression that decodes to it, followed by the marker
+pub proof fn lemma_exp_text(e: Escaper, c: Seq<u8>)
     requires no_lf(c),
     ensures !esc_unp(e, c) ==> encode_utf8(exp_text(e, c)) == c,
         esc_unp(e, c) ==> exists|t: Seq<char>| #[trigger] (t + escaped_marker()) == exp_text(e, c) && opt_eq(decode(t), Some(c)),
-{}
+{
+    match e { Escaper::Ascii => lemma_exp_text_ascii(c), Escaper::Unicode => lemma_exp_text_unicode(c) }
+}
 /// C09 at the level of one output line: the line written for an output line (with its line feed, or the last one without) reads back
 /// as an expectation that matches that line
 pub proof fn lemma_line_reads_back(e: Escaper, line: Seq<u8>)
@@ -104,7 +107,7 @@ pub proof fn lemma_line_reads_back(e: Escaper, line: Seq<u8>)
 {
     let c = strip_nl(line);
     let t0 = exp_text(e, c);
-    axiom_exp_text(e, c);
+    lemma_exp_text(e, c);
     axiom_default_registry();
     lemma_strip_nl_idem(line);
     if esc_unp(e, c) {
@@ -169,7 +172,7 @@ pub proof fn lemma_line_not_exit_code(e: Escaper, line: Seq<u8>)
     ensures exit_code_of(out_line(e, line)) is None,
 {
     let c = strip_nl(line); let t0 = exp_text(e, c);
-    axiom_exp_text(e, c);
+    lemma_exp_text(e, c);
     axiom_exit_code_shape(out_line(e, line));
     if esc_unp(e, c) {
         let t = choose|t: Seq<char>| #[trigger] (t + escaped_marker()) == exp_text(e, c) && opt_eq(decode(t), Some(c));
